@@ -1,7 +1,7 @@
 (** Property C14 — assignment qualifiers decide the vote and the write per the documented table.
     Statements only; proofs in Match/AssignProofs.v. *)
 From Coq Require Import ZArith List Bool.
-From V Require Import Match.Assign Match.AssignProofs.
+From V Require Import Match.Assign Match.AssignProofs Match.QSem Match.AsgSrc Match.AsgSrcEq.
 Import ListNotations.
 Open Scope Z_scope.
 
@@ -59,3 +59,26 @@ Example C14_nonvacuous :
   assign_run (mkQ false true false false false false false false) [mkArow (AStr [49]) true; mkArow (AStr [50]) true]
     = Some [(true, AStr [49]); (true, AStr [49])].
 Proof. repeat split; reflexivity. Qed.
+
+(** the source itself: Equality._do_assignment_new_impl (with _latch_and_onchange and _set_variable_if) as translated from
+    csvpath/matching/productions/equality.py (Match/AsgSrc.v, regenerated on every run), under Python's semantics (Match/QSem.v), calls
+    set_variable exactly when the model writes, returns exactly the model's vote and raises exactly when the model does — hence the
+    documented table (C14_table) is a statement about the source: whenever old and new value can be compared, the source writes iff
+    [write] and votes [vote] *)
+Theorem C14_source : forall q lm cur y,
+  do_assignment_src false (QBool true) (QBool lm) (QBool (onchange q)) (QBool (latch q)) (QBool (onmatch q)) (QBool (asbool_q q)) (QBool (nocontrib q))
+     (QBool (notnone q)) (QBool (increase q)) (QBool (decrease q)) (emb y) (emb cur)
+  = emb_res (do_assignment q lm cur y).
+Proof. exact do_assignment_src_eq. Qed.
+Print Assumptions C14_source.
+Theorem C14_source_table : forall q lm cur y, comparable cur y = true ->
+  do_assignment_src false (QBool true) (QBool lm) (QBool (onchange q)) (QBool (latch q)) (QBool (onmatch q)) (QBool (asbool_q q)) (QBool (nocontrib q))
+     (QBool (notnone q)) (QBool (increase q)) (QBool (decrease q)) (emb y) (emb cur)
+  = (write q lm cur y, QBool (vote q lm cur y)).
+Proof.
+  intros q lm cur y Hc. rewrite do_assignment_src_eq.
+  destruct (assignment_total q lm cur y Hc) as (w & vt & E). rewrite E.
+  destruct (assignment_table q lm cur y w vt E) as [Hw Hv]. subst. reflexivity.
+Qed.
+Print Assumptions C14_source_table.
+
